@@ -212,11 +212,11 @@ func c16short(s string) string {
 	return s
 }
 
-// The multi-chunk input: the sequence readers cut a file into chunks of 1 MiB, one batch per chunk, whatever
-// --batch-size says: the 14 records alone always travel as ONE batch until something re-batches them. Three
-// copies of them (identifiers suffixed b, c) separated by two filler records of 1.1 MiB give a stream of
-// several batches of unequal sizes to the workers (--max-cpu) and classes that exceed --batch-size by
-// two batches and more.
+// The multi-chunk input: the sequence readers cut a file into chunks of 1 MiB, one batch per chunk (the last
+// record of the file apart), whatever --batch-size says: the 14 records travel as two batches of 13 and 1
+// records until something re-batches them. Three copies of them (identifiers suffixed b, c) separated by two
+// filler records of 1.1 MiB give a stream of four batches (14, 15, 14, 1 records) to the workers
+// (--max-cpu) and classes that exceed --batch-size by two batches and more.
 func c16bigInput() []c16rec {
 	var out []c16rec
 	filler := func(id string, unit string, k1 string) c16rec {
@@ -646,6 +646,8 @@ func c16distAtoms() []c16atom {
 		{name: "ck1", family: "classifier", args: []string{"-c", "k1"}},
 		{name: "ccount", family: "classifier", args: []string{"-c", "count"}},
 		{name: "ck1dk2", family: "classifier+directory", args: []string{"-c", "k1", "-d", "k2"}},
+		{name: "ck3", family: "classifier", args: []string{"-c", "k3"}}, // 11 of the 14 records in the NA class
+		{name: "ck1na", family: "classifier+na-value", args: []string{"-c", "k1", "--na-value", "none"}},
 		{name: "hash3", family: "hash", args: []string{"-H", "3"}},
 		{name: "batches3", family: "batches", args: []string{"-n", "3"}},
 	}
@@ -969,6 +971,7 @@ func (e *c16env) evalGrep(c c16case) c16verdict {
 	}
 	var kept, keptM, disc, discM []c16rec
 	discPresent := false
+	outMissing := false // paired: neither out_R1 nor out_R2 exists (reported only if a record had to be there)
 	if paired {
 		var ok1, ok2 bool
 		kept, ok1, err = c16readRecs(filepath.Join(dir, "out_R1.fasta"))
@@ -979,6 +982,7 @@ func (e *c16env) evalGrep(c c16case) c16verdict {
 			v.Class, v.Desc = "paired-sync", cmdline+": only one of out_R1.fasta / out_R2.fasta was written"
 			return v
 		}
+		outMissing = err == nil && !ok1
 	} else {
 		kept, err = c16parse(p.stdout)
 	}
@@ -1091,6 +1095,9 @@ func (e *c16env) evalGrep(c c16case) c16verdict {
 		v.Class = "kept-set"
 		if paired && inv && matches(alt) {
 			v.Class = "inverse-match-per-read"
+		}
+		if outMissing {
+			v.Class = "paired-output-missing"
 		}
 		v.Desc = fmt.Sprintf("%s: selected {%s}, the options select {%s} (unconstrained {%s})", cmdline, got(occ), show(want, c16T), show(want, c16U))
 		return v
@@ -1239,18 +1246,30 @@ func (e *c16env) evalAnnot(c c16case) c16verdict {
 		return c16verdict{Class: "harness", Desc: err.Error()}
 	}
 	var crit []c16atom
+	inv := false
 	for _, a := range atoms {
 		if a.pred != nil {
 			crit = append(crit, a)
 		}
+		if a.mod == "v" {
+			inv = true
+		}
 	}
+	if inv && len(crit) == 0 {
+		return c16verdict{Skipped: true} // -v without a criterion to invert
+	}
+	paired := c.Paired != ""
 	edits := c16edits(atoms)
+	c16input := e.input(c) // (shadows the 14 records: the case may run on the multi-chunk input)
 	n := len(c16input)
 	sel := make([]c16tv, n)
 	for i := range c16input {
 		v := c16T
 		for _, a := range crit {
 			v = c16and(v, a.pred(&c16input[i]))
+		}
+		if inv {
+			v = c16not(v)
 		}
 		sel[i] = v
 	}
@@ -1260,7 +1279,10 @@ func (e *c16env) evalAnnot(c c16case) c16verdict {
 	for _, a := range atoms {
 		args = append(args, e.subst(a.args, dir)...)
 	}
-	args = append(args, filepath.Join(e.data, "in.fasta"))
+	if paired {
+		args = append(args, "--paired-with", filepath.Join(e.data, "mate.fasta"), "-o", filepath.Join(dir, "out.fasta"))
+	}
+	args = append(args, e.inFile(c, 0))
 	p := e.exec(dir, "obiannotate", args)
 	v := c16verdict{Ran: true, NonTriv: len(edits) > 0}
 	cmdline := "obiannotate " + strings.Join(args, " ")
@@ -1272,7 +1294,22 @@ func (e *c16env) evalAnnot(c c16case) c16verdict {
 		v.Class, v.Desc = "exit-status", fmt.Sprintf("%s: %v: %s", cmdline, p.err, c16errTail(p.stderr))
 		return v
 	}
-	out, err := c16parse(p.stdout)
+	var out, outM []c16rec
+	outMissing := false // paired: neither out_R1 nor out_R2 exists (reported only if a record had to be there)
+	if paired {
+		var ok1, ok2 bool
+		out, ok1, err = c16readRecs(filepath.Join(dir, "out_R1.fasta"))
+		if err == nil {
+			outM, ok2, err = c16readRecs(filepath.Join(dir, "out_R2.fasta"))
+		}
+		if err == nil && ok1 != ok2 {
+			v.Class, v.Desc = "paired-sync", cmdline+": only one of out_R1.fasta / out_R2.fasta was written"
+			return v
+		}
+		outMissing = err == nil && !ok1
+	} else {
+		out, err = c16parse(p.stdout)
+	}
 	if err != nil {
 		v.Class, v.Desc = "unparsable-output", cmdline+": "+err.Error()
 		return v
@@ -1287,12 +1324,14 @@ func (e *c16env) evalAnnot(c c16case) c16verdict {
 		orig[i] = r.canon()
 	}
 	// every order of the requested edits x (cut renames the id | cut keeps the id)
-	explained := false
+	explained := false   // the (forward) records
+	explainedM := false  // ... and the mates at the same ranks
+	mateDetail := ""
 	var firstForms []string
 	var firstOK []bool
 	nperm := 0
 	verifkit.Permutations(len(edits), func(perm []int) {
-		if explained {
+		if explained && (explainedM || !paired) {
 			return
 		}
 		for _, sub := range []bool{true, false} {
@@ -1316,8 +1355,9 @@ func (e *c16env) evalAnnot(c c16case) c16verdict {
 			}
 			// match the actual records to input records
 			used := make([]bool, n)
+			assign := make([]int, len(actual))
 			good := true
-			for _, a := range actual {
+			for j, a := range actual {
 				found := false
 				for i := 0; i < n && !found; i++ {
 					if used[i] {
@@ -1325,6 +1365,7 @@ func (e *c16env) evalAnnot(c c16case) c16verdict {
 					}
 					if (okf[i] && a == forms[i]) || ((sel[i] != c16T || !okf[i]) && a == orig[i]) {
 						used[i], found = true, true
+						assign[j] = i
 					}
 				}
 				if !found {
@@ -1339,13 +1380,53 @@ func (e *c16env) evalAnnot(c c16case) c16verdict {
 					}
 				}
 			}
-			if good {
-				explained = true
+			if !good {
+				continue
+			}
+			explained = true
+			if !paired {
+				return
+			}
+			// both mates kept or dropped together, at the same rank; the mate itself is unchanged or
+			// received the same edits (the statement does not say which)
+			goodM := len(outM) == len(out)
+			if !goodM && mateDetail == "" {
+				mateDetail = fmt.Sprintf("forward file has %d records, reverse file %d", len(out), len(outM))
+			}
+			for j := 0; goodM && j < len(out); j++ {
+				i := assign[j]
+				got := outM[j].canon()
+				if got == e.mates[i].canon() {
+					continue
+				}
+				m := e.mates[i].clone()
+				ok := true
+				for _, k := range perm {
+					if !edits[k](&m, sub) {
+						ok = false
+						break
+					}
+				}
+				if ok && got == m.canon() {
+					continue
+				}
+				goodM = false
+				if mateDetail == "" {
+					mateDetail = fmt.Sprintf("rank %d holds %s in the forward file but %s in the reverse file (mate is %s)",
+						j, out[j].ID, c16short(got), c16short(e.mates[i].canon()))
+				}
+			}
+			if goodM {
+				explainedM = true
 				return
 			}
 		}
 	})
+	if explained && (explainedM || !paired) {
+		return v
+	}
 	if explained {
+		v.Class, v.Desc = "paired-sync", cmdline+": "+mateDetail
 		return v
 	}
 	must := 0
@@ -1357,6 +1438,9 @@ func (e *c16env) evalAnnot(c c16case) c16verdict {
 	v.Class = "edit-wrong"
 	if len(actual) < must {
 		v.Class = "record-dropped"
+	}
+	if outMissing {
+		v.Class = "paired-output-missing"
 	}
 	// describe the first record that differs from the reference in the code's own chaining order
 	byForm := map[string]bool{}
@@ -1372,7 +1456,7 @@ func (e *c16env) evalAnnot(c c16case) c16verdict {
 					gotRec = o.canon()
 				}
 			}
-			detail = fmt.Sprintf("record %s: want %s got %s", c16input[i].ID, firstForms[i], gotRec)
+			detail = fmt.Sprintf("record %s: want %s got %s", c16input[i].ID, c16short(firstForms[i]), c16short(gotRec))
 			break
 		}
 	}
@@ -1402,6 +1486,7 @@ func (e *c16env) evalDist(c c16case) c16verdict {
 	}
 	a := atoms[0]
 	v := c16verdict{Ran: true, NonTriv: true}
+	c16input := e.input(c) // (shadows the 14 records: the case may run on the multi-chunk input)
 	n := len(c16input)
 	index := map[string]int{}
 	for i, r := range c16input {
@@ -1413,7 +1498,7 @@ func (e *c16env) evalDist(c c16case) c16verdict {
 		defer os.RemoveAll(dir)
 		args := append(c16general(c), "-p", "o_%s.fasta")
 		args = append(args, a.args...)
-		args = append(args, filepath.Join(e.data, []string{"in.fasta", "in_rev.fasta"}[ord]))
+		args = append(args, e.inFile(c, ord))
 		p := e.exec(dir, "obidistribute", args)
 		cmdline := "obidistribute " + strings.Join(args, " ")
 		if p.timedOut {
@@ -1438,7 +1523,7 @@ func (e *c16env) evalDist(c c16case) c16verdict {
 					return v
 				}
 				if r.canon() != c16input[i].canon() {
-					v.Class, v.Desc = "content", fmt.Sprintf("%s: file %s: record altered: got %s want %s", cmdline, f, r.canon(), c16input[i].canon())
+					v.Class, v.Desc = "content", fmt.Sprintf("%s: file %s: record altered: got %s want %s", cmdline, f, c16short(r.canon()), c16short(c16input[i].canon()))
 					return v
 				}
 				if where[i] != "" {
@@ -1456,18 +1541,24 @@ func (e *c16env) evalDist(c c16case) c16verdict {
 			}
 		}
 		// file = function of the record
+		na := "NA"
+		if a.name == "ck1na" {
+			na = "none"
+		}
 		val := func(r *c16rec, k string) string {
 			if s, ok := r.str(k); ok {
 				return s
 			}
-			return "NA"
+			return na
 		}
 		for i := range c16input {
 			r := &c16input[i]
 			want := ""
 			switch a.name {
-			case "ck1":
+			case "ck1", "ck1na":
 				want = "o_" + val(r, "k1") + ".fasta"
+			case "ck3":
+				want = "o_" + val(r, "k3") + ".fasta"
 			case "ccount":
 				want = "o_" + val(r, "count") + ".fasta"
 			case "ck1dk2":
@@ -1551,6 +1642,21 @@ exp,s2,gaagtag,TTAGATACCCCACTATGC,TAGAACAGGCTCCTCTAG
 
 var c16subRe = regexp.MustCompile(`_sub\[\d+\.\.\d+\]$`)
 
+// mate k of the obimultiplex reads: the first 20 bases of the other strand, id suffixed ".2"
+func c16mxMates(reads []c16rec) []c16rec {
+	out := make([]c16rec, len(reads))
+	for i, r := range reads {
+		s := c16rc(r.Seq)
+		if len(s) > 20 {
+			s = s[:20]
+		}
+		out[i] = c16rec{ID: r.ID + ".2", Ann: map[string]any{"x": float64(100 + i)}, Seq: s}
+	}
+	return out
+}
+
+// obimultiplex: atoms = [] (-u file), ["keep"] (-u file --keep-errors: same routing); Paired != "" adds
+// --paired-with / -o: stdout becomes out_R1/out_R2, the unidentified file unid_R1/unid_R2.
 func (e *c16env) evalMultiplex(c c16case) c16verdict {
 	v := c16verdict{Ran: true}
 	index := map[string]int{}
@@ -1558,12 +1664,23 @@ func (e *c16env) evalMultiplex(c c16case) c16verdict {
 		index[r.ID] = i
 	}
 	n := len(e.mxReads)
+	paired := c.Paired != ""
 	var route [2][]string
 	for ord := 0; ord < 2; ord++ {
 		dir := e.newRunDir()
 		defer os.RemoveAll(dir)
-		args := append(c16general(c), "-t", filepath.Join(e.data, "ngs.csv"), "-u", filepath.Join(dir, "unid.fasta"),
-			filepath.Join(e.data, []string{"mx.fasta", "mx_rev.fasta"}[ord]))
+		args := append(c16general(c), "-t", filepath.Join(e.data, "ngs.csv"), "-u", filepath.Join(dir, "unid.fasta"))
+		for _, a := range c.Atoms {
+			if a != "keep" {
+				return c16verdict{Class: "harness", Desc: "unknown obimultiplex atom " + a}
+			}
+			args = append(args, "--keep-errors")
+		}
+		if paired {
+			args = append(args, "--paired-with", filepath.Join(e.data, []string{"mxmate.fasta", "mxmate_rev.fasta"}[ord]),
+				"-o", filepath.Join(dir, "out.fasta"))
+		}
+		args = append(args, filepath.Join(e.data, []string{"mx.fasta", "mx_rev.fasta"}[ord]))
 		p := e.exec(dir, "obimultiplex", args)
 		cmdline := "obimultiplex " + strings.Join(args, " ")
 		if p.timedOut {
@@ -1574,10 +1691,36 @@ func (e *c16env) evalMultiplex(c c16case) c16verdict {
 			v.Class, v.Desc = "exit-status", fmt.Sprintf("%s: %v: %s", cmdline, p.err, c16errTail(p.stderr))
 			return v
 		}
-		assigned, err := c16parse(p.stdout)
-		var unid []c16rec
-		if err == nil {
-			unid, _, err = c16readRecs(filepath.Join(dir, "unid.fasta"))
+		var assigned, unid, assignedM, unidM []c16rec
+		var err error
+		outMissing := false // paired: a pair of output files does not exist (reported only if a read is lost)
+		if paired {
+			var ok1, ok2 bool
+			assigned, ok1, err = c16readRecs(filepath.Join(dir, "out_R1.fasta"))
+			if err == nil {
+				assignedM, ok2, err = c16readRecs(filepath.Join(dir, "out_R2.fasta"))
+			}
+			if err == nil && ok1 != ok2 {
+				v.Class, v.Desc = "paired-sync", cmdline+": only one of out_R1.fasta / out_R2.fasta was written"
+				return v
+			}
+			outMissing = err == nil && !ok1
+			if err == nil {
+				unid, ok1, err = c16readRecs(filepath.Join(dir, "unid_R1.fasta"))
+			}
+			if err == nil {
+				unidM, ok2, err = c16readRecs(filepath.Join(dir, "unid_R2.fasta"))
+			}
+			outMissing = outMissing || (err == nil && !ok1 && !ok2)
+			if err == nil && ok1 != ok2 {
+				v.Class, v.Desc = "paired-sync", cmdline+": only one of unid_R1.fasta / unid_R2.fasta was written"
+				return v
+			}
+		} else {
+			assigned, err = c16parse(p.stdout)
+			if err == nil {
+				unid, _, err = c16readRecs(filepath.Join(dir, "unid.fasta"))
+			}
 		}
 		if err != nil {
 			v.Class, v.Desc = "unparsable-output", cmdline+": "+err.Error()
@@ -1586,7 +1729,12 @@ func (e *c16env) evalMultiplex(c c16case) c16verdict {
 		where := make([]string, n)
 		for k, list := range [][]c16rec{assigned, unid} {
 			name := []string{"stdout", "unidentified"}[k]
-			for _, r := range list {
+			mates := [][]c16rec{assignedM, unidM}[k]
+			if paired && len(mates) != len(list) {
+				v.Class, v.Desc = "paired-sync", fmt.Sprintf("%s: %s: forward file has %d records, reverse file %d", cmdline, name, len(list), len(mates))
+				return v
+			}
+			for j, r := range list {
 				id := c16subRe.ReplaceAllString(r.ID, "")
 				i, ok := index[id]
 				if !ok {
@@ -1603,6 +1751,11 @@ func (e *c16env) evalMultiplex(c c16case) c16verdict {
 					v.Class, v.Desc = "wrong-file", fmt.Sprintf("%s: read %s is in %s but obimultiplex_error present=%v", cmdline, id, name, hasErr)
 					return v
 				}
+				if paired && (mates[j].ID != e.mxMates[i].ID || mates[j].Seq != e.mxMates[i].Seq) {
+					v.Class, v.Desc = "paired-sync", fmt.Sprintf("%s: %s: rank %d holds %s in the forward file but %s in the reverse file",
+						cmdline, name, j, r.ID, mates[j].ID)
+					return v
+				}
 			}
 		}
 		e.r.Trans(int64(n))
@@ -1611,6 +1764,9 @@ func (e *c16env) evalMultiplex(c c16case) c16verdict {
 			switch where[i] {
 			case "":
 				v.Class, v.Desc = "record-lost", fmt.Sprintf("%s: read %s is neither in stdout nor in the unidentified file", cmdline, e.mxReads[i].ID)
+				if outMissing {
+					v.Class = "paired-output-missing"
+				}
 				return v
 			case "stdout":
 				na++
@@ -1645,8 +1801,8 @@ func (e *c16env) families(tool string, names []string) string {
 func c16subsets(s []string) [][]string {
 	var out [][]string
 	n := len(s)
-	for m := 1; m < (1<<n)-1; m++ {
-		var t []string
+	for m := 0; m < (1<<n)-1; m++ { // (the empty combination included: the tool without any option)
+		t := []string{}
 		for i := 0; i < n; i++ {
 			if m&(1<<i) != 0 {
 				t = append(t, s[i])
@@ -1661,8 +1817,15 @@ func c16subsets(s []string) [][]string {
 // key attributes a failing case to the smallest failing sub-combination of its options (same
 // configuration), and a failing paired case to the unpaired one when that fails too.
 func (e *c16env) key(c c16case, v c16verdict) string {
-	if c.Tool == "obigrep" && c.Paired != "" {
-		if v.Class == "inverse-match-per-read" {
+	if c.Input != "" { // the multi-chunk input: attributed to the 14-record input when that fails too
+		u := c
+		u.Input = ""
+		if uv := e.eval(u); uv.Class != "" {
+			return e.key(u, uv)
+		}
+	}
+	if c.Paired != "" {
+		if c.Tool == "obigrep" && v.Class == "inverse-match-per-read" {
 			return "obigrep/paired-mode=" + c.Paired + "/inverse-match-is-not-the-complement"
 		}
 		u := c
@@ -1671,7 +1834,7 @@ func (e *c16env) key(c c16case, v c16verdict) string {
 			return e.key(u, uv)
 		}
 	}
-	if (c.Tool == "obigrep" || c.Tool == "obiannotate") && !strings.HasPrefix(v.Class, "discarded-") {
+	if (c.Tool == "obigrep" || c.Tool == "obiannotate" || c.Tool == "obimultiplex") && !strings.HasPrefix(v.Class, "discarded-") {
 		for _, t := range c16subsets(c.Atoms) {
 			s := c
 			s.Atoms = t
@@ -1681,6 +1844,9 @@ func (e *c16env) key(c c16case, v c16verdict) string {
 		}
 	}
 	k := c.Tool + "/"
+	if c.Input != "" {
+		k += "multi-chunk-input/"
+	}
 	if c.Paired != "" {
 		k += "paired/"
 	}
@@ -1727,7 +1893,8 @@ func c16setup(r *verifkit.Result) (*c16env, error) {
 	work = filepath.Join(work, fmt.Sprintf("c16-shard%d", r.Shard))
 	os.RemoveAll(work)
 	e := &c16env{r: r, bin: filepath.Join(work, "bin"), data: filepath.Join(work, "data"), runs: filepath.Join(work, "runs"),
-		atoms: map[string]map[string]c16atom{}, order: map[string][]string{}, mates: c16mates(), mxReads: c16mxReads()}
+		atoms: map[string]map[string]c16atom{}, order: map[string][]string{}, mates: c16mates(), mxReads: c16mxReads(), big: c16bigInput()}
+	e.mxMates = c16mxMates(e.mxReads)
 	for _, d := range []string{e.bin, e.data, e.runs, filepath.Join(e.data, "taxdump")} {
 		if err := os.MkdirAll(d, 0o755); err != nil {
 			return nil, err
@@ -1774,8 +1941,12 @@ func c16setup(r *verifkit.Result) (*c16env, error) {
 	files := map[string][]byte{
 		"in.fasta":           c16fasta(c16input),
 		"in_rev.fasta":       c16fasta(rev(c16input)),
+		"inbig.fasta":        c16fasta(e.big),
+		"inbig_rev.fasta":    c16fasta(rev(e.big)),
 		"mate.fasta":         c16fasta(e.mates),
-		"ids.txt":            []byte(strings.Join(c16idList, "\n") + "\n"),
+		"mxmate.fasta":       c16fasta(e.mxMates),
+		"mxmate_rev.fasta":   c16fasta(rev(e.mxMates)),
+		"ids.txt":            c16idFile(),
 		"taxdump/nodes.dmp":  []byte(nodes.String()),
 		"taxdump/names.dmp":  []byte(names.String()),
 		"taxdump/merged.dmp": []byte("9\t|\t7\t|\n"),
@@ -1798,7 +1969,18 @@ func c16setup(r *verifkit.Result) (*c16env, error) {
 			return nil, fmt.Errorf("harness parser: %s != %s", back[i].canon(), c16input[i].canon())
 		}
 	}
-	for tool, list := range map[string][]c16atom{"obigrep": c16grepAtoms(), "obiannotate": c16annotAtoms(), "obidistribute": c16distAtoms(), "obimultiplex": nil} {
+	// what the binary itself says about its options (case of the patterns)
+	hp := e.exec1(e.runs, "obigrep", []string{"--help"})
+	help := string(hp.stdout) + "\n" + string(hp.stderr)
+	if !strings.Contains(help, "--identifier|-I") {
+		return nil, fmt.Errorf("obigrep --help does not describe --identifier|-I: %.300s", help)
+	}
+	tvs := map[c16tv]string{c16T: "case insensitive", c16F: "case sensitive", c16U: "(not stated)"}
+	for _, o := range []string{"identifier", "definition", "sequence", "attribute"} {
+		r.Bound("help_says_pattern_of_--"+o, tvs[c16helpCase(help, o)])
+	}
+	mxAtoms := []c16atom{{name: "keep", family: "keep-errors", args: []string{"--keep-errors"}}}
+	for tool, list := range map[string][]c16atom{"obigrep": c16grepAtoms(help), "obiannotate": c16annotAtoms(), "obidistribute": c16distAtoms(), "obimultiplex": mxAtoms} {
 		e.atoms[tool] = map[string]c16atom{}
 		for _, a := range list {
 			e.atoms[tool][a.name] = a
@@ -1833,6 +2015,47 @@ func (e *c16env) combos(tool string, k int) [][]string {
 	}
 	rec(0, nil)
 	sort.SliceStable(out, func(i, j int) bool { return len(out[i]) < len(out[j]) })
+	return out
+}
+
+// repeats: for every repeatable option of the tool with >= 3 occurrences among the atoms: all its occurrences
+// together (-S: the first three, and all four); withOthers: also each of these with every other atom.
+func (e *c16env) repeats(tool string, withOthers bool) [][]string {
+	fam := map[string][]string{}
+	var famOrder []string
+	for _, n := range e.order[tool] {
+		a := e.atoms[tool][n]
+		if a.rep == "" {
+			continue
+		}
+		if _, ok := fam[a.rep]; !ok {
+			famOrder = append(famOrder, a.rep)
+		}
+		fam[a.rep] = append(fam[a.rep], n)
+	}
+	var out [][]string
+	for _, f := range famOrder {
+		occ := fam[f]
+		if len(occ) < 3 {
+			continue
+		}
+		sets := [][]string{occ[:3]}
+		if len(occ) > 3 {
+			sets = append(sets, occ)
+		}
+		for _, set := range sets {
+			out = append(out, append([]string{}, set...))
+			if !withOthers {
+				continue
+			}
+			for _, n := range e.order[tool] {
+				if e.atoms[tool][n].rep == f {
+					continue
+				}
+				out = append(out, append(append([]string{}, set...), n))
+			}
+		}
+	}
 	return out
 }
 
@@ -1876,6 +2099,8 @@ func TestVerifC16(t *testing.T) {
 	r.Bound("subset_depth", depth)
 	r.Bound("max_cpu", []int{1, 3})
 	r.Bound("batch_size", []int{1, 5})
+	r.Bound("routing_and_multi_chunk_extra_configuration", "--max-cpu 2 --batch-size 2")
+	r.Bound("records_multi_chunk_input", len(e.big))
 	r.Bound("paired_modes", modes)
 	r.Bound("records", len(c16input))
 	for tool, names := range e.order {
@@ -1889,25 +2114,78 @@ func TestVerifC16(t *testing.T) {
 				cases = append(cases, c16case{Tool: tool, Atoms: s, CPU: g.cpu, Batch: g.batch})
 			}
 		}
+		// every repeatable option given 3 times (-S: 3 and 4 times), alone and with every other atom
+		for _, s := range e.repeats(tool, true) {
+			for _, g := range grid {
+				cases = append(cases, c16case{Tool: tool, Atoms: s, CPU: g.cpu, Batch: g.batch})
+			}
+		}
 	}
 	pgrid := []cfg{{3, 5}}
 	if thorough {
 		pgrid = grid
 	}
-	for _, s := range e.combos("obigrep", 2) {
+	for _, s := range append(e.combos("obigrep", 2), e.repeats("obigrep", false)...) {
 		for _, m := range modes {
 			for _, g := range pgrid {
 				cases = append(cases, c16case{Tool: "obigrep", Atoms: s, CPU: g.cpu, Batch: g.batch, Paired: m})
 			}
 		}
 	}
+	// obiannotate on paired files: every edit / criterion alone and every pair
+	for _, s := range append(e.combos("obiannotate", 2), e.repeats("obiannotate", false)...) {
+		for _, g := range pgrid {
+			cases = append(cases, c16case{Tool: "obiannotate", Atoms: s, CPU: g.cpu, Batch: g.batch, Paired: "yes"})
+		}
+	}
+	// routing tools: the 4 configurations + batch size 2 (classes of 4 and 5 records = 2 full batches, +1)
+	rgrid := append(append([]cfg{}, grid...), cfg{2, 2})
 	for _, a := range e.order["obidistribute"] {
-		for _, g := range grid {
+		for _, g := range rgrid {
 			cases = append(cases, c16case{Tool: "obidistribute", Atoms: []string{a}, CPU: g.cpu, Batch: g.batch})
 		}
 	}
-	for _, g := range grid {
-		cases = append(cases, c16case{Tool: "obimultiplex", Atoms: []string{}, CPU: g.cpu, Batch: g.batch})
+	for _, atoms := range [][]string{{}, {"keep"}} {
+		for _, g := range rgrid {
+			for _, pm := range []string{"", "yes"} {
+				cases = append(cases, c16case{Tool: "obimultiplex", Atoms: atoms, CPU: g.cpu, Batch: g.batch, Paired: pm})
+			}
+		}
+	}
+	// the multi-chunk input (batches of 14, 15, 14 and 1 records instead of 13 + 1 reach the workers; classes of
+	// 12 to 35 records; two records > 1 MiB): every single atom x 2 configurations (thorough: the 5
+	// configurations, and every pair in one), every classifier x the 5 configurations
+	bgrid := []cfg{{3, 5}, {2, 2}}
+	if thorough {
+		bgrid = rgrid
+	}
+	for _, tool := range []string{"obigrep", "obiannotate"} {
+		for _, s := range e.combos(tool, 1) {
+			for _, g := range bgrid {
+				cases = append(cases, c16case{Tool: tool, Atoms: s, CPU: g.cpu, Batch: g.batch, Input: "big"})
+			}
+		}
+		if thorough {
+			for _, s := range e.combos(tool, 2) {
+				cases = append(cases, c16case{Tool: tool, Atoms: s, CPU: 3, Batch: 5, Input: "big"})
+			}
+		}
+	}
+	for _, a := range e.order["obidistribute"] {
+		for _, g := range rgrid {
+			cases = append(cases, c16case{Tool: "obidistribute", Atoms: []string{a}, CPU: g.cpu, Batch: g.batch, Input: "big"})
+		}
+	}
+	{ // one case = one id
+		seen := map[string]bool{}
+		var uniq []c16case
+		for _, c := range cases {
+			if !seen[c.id()] {
+				seen[c.id()] = true
+				uniq = append(uniq, c)
+			}
+		}
+		cases = uniq
 	}
 	if f := os.Getenv("VERIF_C16_ONLY"); f != "" { // debugging aid: restrict to the cases whose id matches
 		re := regexp.MustCompile(f)
